@@ -138,14 +138,15 @@ func build(c Case) (o *obs) {
 type scenario struct {
 	ca, name string
 	old      bool // the server speaks TLS 1.0 and 1.1 only
+	tls12    bool // the server speaks TLS 1.2 at most
 }
 
 func parseScenario(s string) (scenario, error) {
 	p := strings.Split(s, "/")
-	if len(p) < 2 || len(p) > 3 || (len(p) == 3 && p[2] != "old") {
+	if len(p) < 2 || len(p) > 3 || (len(p) == 3 && p[2] != "old" && p[2] != "tls12") {
 		return scenario{}, fmt.Errorf("bad scenario %q", s)
 	}
-	sc := scenario{ca: p[0], name: p[1], old: len(p) == 3}
+	sc := scenario{ca: p[0], name: p[1], old: len(p) == 3 && p[2] == "old", tls12: len(p) == 3 && p[2] == "tls12"}
 	okCA, okName := false, false
 	for _, x := range serverCAs {
 		okCA = okCA || x == sc.ca
@@ -167,6 +168,10 @@ func allScenarios() []string {
 				out = append(out, ca+"/"+n+old)
 			}
 		}
+	}
+	// servers limited to TLS 1.2: the floor itself (accepting it is MAY, the refusals are the same MUSTs)
+	for _, s := range []string{"A/srv.test", "A/other.test", "C/srv.test", "P/srv.test", "SYS/srv.test", "U/srv.test"} {
+		out = append(out, s+"/tls12")
 	}
 	return out
 }
@@ -353,7 +358,7 @@ func judgeHandshake(c Case, rf ref, scen string, h hsResult) (class, what string
 		trust = "may" // nothing supplied: the system pool is what the text expects, an empty trust set would not weaken anything
 	}
 	desc := fmt.Sprintf("server %s (issuer %s, name %s%s), client verifies name %q, roots must %s may %s, skip allowed %v, callback %q: %s (client error: %v, server error: %v)",
-		scen, sc.ca, sc.name, map[bool]string{true: ", TLS<=1.1 only"}[sc.old], eff, set(rf.rootMust), set(rf.rootMay), rf.skipAllowed, c.Callback, h.label(), h.err, h.srvErr)
+		scen, sc.ca, sc.name, map[bool]string{true: ", TLS<=1.1 only"}[sc.old]+map[bool]string{true: ", TLS<=1.2"}[sc.tls12], eff, set(rf.rootMust), set(rf.rootMay), rf.skipAllowed, c.Callback, h.label(), h.err, h.srvErr)
 	if h.hang {
 		return "handshake/hang", desc
 	}
@@ -391,7 +396,8 @@ func judgeHandshake(c Case, rf ref, scen string, h hsResult) (class, what string
 		return "", ""
 	}
 	// refused
-	if !sc.old && c.Callback != "reject" && trust == "must" && nameOK {
+	// (a server limited to TLS 1.2 may be refused: the text sets a floor, not the floor's value)
+	if !sc.old && !sc.tls12 && c.Callback != "reject" && trust == "must" && nameOK {
 		return "handshake/rejected-supplied-root", desc
 	}
 	return "", ""
